@@ -7,6 +7,9 @@
 // A state is identified by the history that reaches it; a successor is
 // computed on fresh instances (replay + one more op), so no execution can
 // disturb another one.
+//
+// Families: trie.go (one trie), fork.go (a trie and a copy of it, both operated
+// on), sweep.go (value sizes swept over the embed/hash boundary), statedb.go.
 package main
 
 import (
@@ -19,7 +22,7 @@ import (
 )
 
 type kase struct {
-	Part    string `json:"part"` // trie | securetrie | statedb
+	Part    string `json:"part"` // trie | securetrie | statedb | <trie part>-fork | <trie part>-sweep
 	History string `json:"history"`
 	Heavy   bool   `json:"full_state_oracle,omitempty"`
 	TOps    []tOp  `json:"trie_ops,omitempty"`
@@ -27,6 +30,11 @@ type kase struct {
 	// merge-oracle counterexamples: a second history ending in the same content
 	OtherTOps []tOp `json:"other_trie_ops,omitempty"`
 	OtherSOps []sOp `json:"other_statedb_ops,omitempty"`
+	// fork family (two copies of one trie)
+	FOps []fOp `json:"fork_ops,omitempty"`
+	// sweep family: key indexes (insertion order) and value spec per key (see sweepValue)
+	SKeys []int `json:"sweep_keys,omitempty"`
+	SVals []int `json:"sweep_values,omitempty"`
 }
 
 type partStats struct {
@@ -228,8 +236,8 @@ type sdbShared struct {
 	roots    map[[32]byte]bool
 }
 
-func (c *ctx) exploreSDB(start string, prefix []sOp, depth int, sh *sdbShared) partStats {
-	alpha := sdbAlphabet(depth)
+func (c *ctx) exploreSDB(start string, prefix []sOp, depth, nA int, sh *sdbShared) partStats {
+	alpha := sdbAlphabet(depth, nA)
 	st := partStats{Alphabet: len(alpha)}
 	visited := map[skey]bool{}
 
@@ -341,6 +349,19 @@ func selfCheck(tds []*trieDriver) {
 			}
 		}
 	}
+	for _, part := range []string{"trie", "securetrie"} {
+		f := newForkDriver(part, []int{1, 3}, []int{3})
+		h := []fOp{{"update", 0, 1, 0}, {"update", 1, 3, 0}, {"fork", 0, 0, 0}, {"delete", 1, 0, 1}, {"reopen", 0, 3, 0}}
+		a, b := f.run(h, true), f.run(h, true)
+		if a.digest() != b.digest() {
+			core.Fatal("non-deterministic execution of %s history %q", f.part, fHistString(h))
+		}
+		k := sweepCase{[]int{0, 1}, []int{29, 0}}
+		x, y := f.d.runSweep(k), f.d.runSweep(k)
+		if x.digest() != y.digest() {
+			core.Fatal("non-deterministic execution of %s sweep case %s", part, sweepString(f.d, k))
+		}
+	}
 	for _, h := range [][]sOp{nil, append(append([]sOp{}, seedPrefix...), sOp{"Snapshot", 0, 0, 0}, sOp{"Suicide", 0, 0, 0}, sOp{"Revert", 0, 0, 0}, sOp{"IntermediateRoot", 0, 0, 0})} {
 		a, b := runSDB(h), runSDB(h)
 		if a.digest() != b.digest() {
@@ -381,6 +402,17 @@ func main() {
 						fmt.Sprintf("[%s] histories %q and %q end in the same content but have roots %x and %x", k.Part, histString(k.OtherTOps), histString(k.TOps), o.root[:6], r.root[:6]))
 				}
 			}
+		case "trie-fork", "securetrie-fork":
+			f := newForkDriver(strings.TrimSuffix(k.Part, "-fork"), []int{1, 2, 3}, []int{1, 2, 3})
+			r := f.run(k.FOps, k.Heavy)
+			c.report(k, r.viols)
+		case "trie-sweep", "securetrie-sweep":
+			if len(k.SKeys) != len(k.SVals) || len(k.SKeys) == 0 {
+				core.Fatal("malformed sweep case in replay artefact")
+			}
+			d := newTrieDriver(strings.TrimSuffix(k.Part, "-sweep"), true, false)
+			r := d.runSweep(sweepCase{k.SKeys, k.SVals})
+			c.report(k, r.viols)
 		case "statedb":
 			r := runSDB(k.SOps)
 			c.report(k, r.viols)
@@ -406,7 +438,13 @@ func main() {
 		{"trie", "trie", true, false, 5, true},
 		{"securetrie", "securetrie", true, false, 4, true},
 	}
-	sdbDepth := 4
+	sdbDepth, sdb1Depth := 4, 5
+	// fork family: depth, value indexes, reopen variants; sweep family: bound of
+	// the full three-key product, sizes of the third key next to the full
+	// two-key product.
+	forkDepth, forkVals, forkReopens := 4, []int{1, 3}, []int{3}
+	sweepSmall, sweepThird := 12, []int{-1}
+	secSweepSmall, secSweepThird := 0, []int{}
 	if !run.Quick() {
 		runs = []trieRun{
 			{"trie", "trie", true, true, 7, true},
@@ -414,11 +452,14 @@ func main() {
 			{"securetrie", "securetrie", true, true, 7, true},
 			{"securetrie_fine_residency", "securetrie", false, true, 5, false},
 		}
-		sdbDepth = 5
+		sdbDepth, sdb1Depth = 5, 6
+		forkDepth = 5
+		sweepSmall, sweepThird = 14, []int{-1}
+		secSweepSmall, secSweepThird = 2, []int{-1}
 	}
 	if v := os.Getenv("VERIF_C11_DEPTHS"); v != "" { // development aid only
 		var td, sd int
-		fmt.Sscanf(v, "%d,%d,%d", &td, &sd, &sdbDepth)
+		fmt.Sscanf(v, "%d,%d,%d,%d,%d,%d", &td, &sd, &sdbDepth, &sdb1Depth, &forkDepth, &sweepSmall)
 		for i := range runs {
 			if runs[i].part == "trie" && runs[i].depth > td {
 				runs[i].depth = td
@@ -437,10 +478,12 @@ func main() {
 		t0 = time.Now()
 	}
 	cov := core.Coverage{}
-	bounds := map[string]int{"value_sizes": len(trieVals) - 1, "addresses": nAddr, "slots": nSlot, "statedb_depth": sdbDepth}
+	bounds := map[string]int{"value_sizes": len(trieVals) - 1, "addresses": nAddr, "slots": nSlot, "statedb_depth": sdbDepth, "statedb_one_account_depth": sdb1Depth}
 	states, trans, merges := 0, 0, 0
 	add := func(name string, st partStats) {
-		lap(name, st)
+		if !strings.HasPrefix(name, "statedb") {
+			lap(name, st)
+		}
 		cov[name] = st
 		states, trans, merges = states+st.States, trans+st.Transitions, merges+st.Merges
 	}
@@ -450,12 +493,53 @@ func main() {
 		bounds[tr.name+"_depth"] = tr.depth
 		bounds[tr.part+"_keys"] = len(d.keys)
 	}
+	for _, part := range []string{"trie", "securetrie"} {
+		f := newForkDriver(part, forkVals, forkReopens)
+		fs := c.exploreFork(f, forkDepth)
+		lap(part+"_fork", fs.partStats)
+		cov[part+"_fork"] = fs
+		states, trans, merges = states+fs.States, trans+fs.Transitions, merges+fs.Merges
+		bounds[part+"_fork_depth"] = forkDepth
+		bounds["fork_value_sizes"] = len(forkVals)
+		if fs.DeletesByShape["collapse-merge-with-extension"] == 0 && forkDepth >= 4 {
+			core.Fatal("%s fork family: no delete after the fork collapses a branch under an extension node (vacuous)", part)
+		}
+	}
+	if sweepSmall >= 0 {
+		for _, part := range []string{"trie", "securetrie"} {
+			d := newTrieDriver(part, true, false)
+			small, third := sweepSmall, sweepThird
+			if d.secure {
+				small, third = secSweepSmall, secSweepThird
+			}
+			t1 := time.Now()
+			ss := c.exploreSweep(d, run.Quick(), small, third)
+			if os.Getenv("VERIF_DEBUG") != "" {
+				fmt.Fprintf(os.Stderr, "%-26s %8.1fs cases=%d n31=%d n32=%d n33=%d kinds=%v\n", part+"_sweep", time.Since(t1).Seconds(), ss.Cases, ss.N31, ss.N32, ss.N33, ss.Kinds)
+			}
+			t0 = time.Now()
+			cov[part+"_value_size_sweep"] = ss
+			// one case = one distinct content (a state), reached by two histories
+			states, trans, merges = states+ss.Cases, trans+2*ss.Cases, merges+ss.Cases
+			if part == "trie" && ss.N32 == 0 {
+				core.Fatal("value-size sweep: no case contains a non-root node of exactly 32 bytes (vacuous)")
+			}
+		}
+	}
 	sh := &sdbShared{rootOf: map[string][32]byte{}, rootHist: map[string][]sOp{}, roots: map[[32]byte]bool{}}
-	stEmpty := c.exploreSDB("empty", nil, sdbDepth, sh)
-	stSeeded := c.exploreSDB("seeded", seedPrefix, sdbDepth, sh)
-	stEmpty.Roots, stSeeded.Roots = len(sh.roots), len(sh.roots)
+	stEmpty := c.exploreSDB("empty", nil, sdbDepth, nAddr, sh)
+	lap("statedb_empty", stEmpty)
+	stSeeded := c.exploreSDB("seeded", seedPrefix, sdbDepth, nAddr, sh)
+	lap("statedb_seeded", stSeeded)
+	stEmpty1 := c.exploreSDB("empty", nil, sdb1Depth, 1, sh)
+	lap("statedb_one_account_empty", stEmpty1)
+	stSeeded1 := c.exploreSDB("seeded", seedPrefix, sdb1Depth, 1, sh)
+	lap("statedb_one_account_seeded", stSeeded1)
+	stEmpty.Roots, stSeeded.Roots, stEmpty1.Roots, stSeeded1.Roots = len(sh.roots), len(sh.roots), len(sh.roots), len(sh.roots)
 	add("statedb_empty", stEmpty)
 	add("statedb_seeded", stSeeded)
+	add("statedb_one_account_empty", stEmpty1)
+	add("statedb_one_account_seeded", stSeeded1)
 
 	refRule := "the reference trie is driven through the same history on every execution that discovers a new state; the other executions compare the in-tree root with the reference root recorded for the same content"
 	if !run.Quick() {
@@ -470,8 +554,20 @@ func main() {
 	cov["outcome_class_count"] = c.classes.Len()
 	cov["rule"] = "BFS over operation histories; one execution = fresh in-tree instance (+ fresh reference instance), replay of the representative history, one more op, oracle on the op and on the state reached; every (representative history, enabled op) pair is executed; a state is distinct by canonical key. " +
 		"Trie / SecureTrie: alphabet = update(k,v) for 3 value sizes (1/31/33 B), delete(k), [thorough: update(k,empty)], get(k), prove(k) for every key, hash, commit, commit+reopen in 3 variants (same node database; after Database.Commit to the disk db; brand-new Database on the disk db); 8 keys for the plain trie (shared nibble prefixes 0,1,3,4,63; a three-way branch with hashed children; strict nibble-prefix keys incl. the empty key; two 32-byte keys differing in the last nibble), 6 32-byte keys for the secure trie (keccak images sharing 0,1,2,3 nibbles, three-way root branch); canonical key = content map + residency class (coarse: never committed|committed|reopened × clean|dirty; fine: never committed|committed|reopened×3 variants × clean|dirty|hashed). Light oracle on every execution: every Get = content, root = reference root = root of a fresh in-tree trie built by sorted insertion, merge oracle (equal content ⇒ equal root); full oracle on every execution that discovers a state: additionally Prove→VerifyProof (in-tree and reference verifier) for every key incl. absent ones, leaf iteration = content, root unchanged by reads; " + refRule + ". " +
-		"StateDB: 2 addresses, alphabet = AddBalance(0|5), SubBalance(5) if affordable, SetNonce, SetCode, SetState(2 slots × {0,7}), Suicide, CreateAccount per address, AddLog, AddRefund, Snapshot, RevertToSnapshot(every live snapshot), IntermediateRoot(true), Commit(true)+state.New in 2 variants (same state.Database; TrieDB().Commit + brand-new state.Database on the disk db), from two start states (empty; seeded = contract with committed storage + funded account, built through the API); canonical key = all getter-observable state of the current revision and of every live snapshot + the account content as of the last finalisation + which accounts were addressed in the current transaction (pending in the journal) + whether the instance was finalised in place (IntermediateRoot) since it was opened + whether a live account was re-created in the current transaction; the reference StateDB is driven through the same history on every execution. " +
-		"distinct_nontrivial = number of distinct canonical states reached (an execution that ends in an already known canonical state is a merge and is not counted); outcome_class_count = distinct (part, op, residency class or model effect) classes observed, outcome_classes = their histogram without the residency component."
+		"Copies of a trie (<part>_fork): the same BFS over an alphabet with one more op, fork = copy the live trie the way the package's users do (plain trie: value copy `c := *t`; SecureTrie.Copy(); both are what state.Database.CopyTrie / StateDB.Copy do), allowed once per history; before it the ops work on the original, after it every op exists once per copy: update(k,v) for 2 value sizes (1/33 B), delete(k), hash, commit, commit+flush+reopen over a brand-new Database; canonical key = (content, residency class) of the original and of the copy; reference model = one content map per copy. After every execution BOTH copies are examined (the one the last op did not work on first): root = root upstream gives for that copy's content = root of a fresh in-tree trie of that content, every Get = that copy's content; on executions that discover a state additionally proofs for every key, leaf iteration and root stability on both copies. post_fork_deletes_by_shape classifies (from the key set alone) every delete executed after the fork: the branch the key hangs off keeps two children / collapses into a short node / collapses under an extension node and is merged with it (counted; the run aborts as vacuous if the last class is empty). " +
+		"Value sizes (<part>_value_size_sweep): for every set of 1–3 keys of the part's key pool (plain trie: keys of 0, 1, 2 and 32 bytes through the raw trie API; secure trie: 32-byte keys hashed, as account and storage tries are used) and value sizes swept over the contiguous range value_sizes_swept (plus the single byte 0x05 that RLP encodes as itself, spec -1; size 0 = inserted and removed again): 1 key: every size; 2 keys: full product of sizes; 3 keys: full product of the sizes up to triple_full_product_up_to_size, plus full product for the first two keys × third key of the sizes triple_third_key_sizes. One case = one content reached by two histories (in order + Hash, then Get/Prove→VerifyProof by both verifiers for every key, Commit, flush, reopen over a brand-new Database, Get, Hash; and reverse order with 33-byte values committed first, then overwritten/removed); oracle: root = root of the upstream trie driven by the same history = root of the second history = root after reopen, Gets and proofs yield the content. The node blobs of the committed REFERENCE trie are walked (embedded nodes inside their parent, hashed ones through the node database) and the cases containing a non-root node whose RLP is exactly 31 / 32 / 33 bytes are counted per node kind (cases_with_non_root_node_of_exactly_32_bytes is measured, > 0 enforced for the plain trie; with 32-byte hashed keys such nodes cannot occur this close to the root, the secure-trie count is reported as measured). " +
+		"StateDB: 2 addresses, alphabet = AddBalance(0|5), SubBalance(5) if affordable, SetNonce, SetCode, SetState(2 slots × {0,7}), Suicide, CreateAccount per address, AddLog, AddRefund, Snapshot, RevertToSnapshot(every live snapshot), IntermediateRoot(true), Commit(true)+state.New in 2 variants (same state.Database; TrieDB().Commit + brand-new state.Database on the disk db), from two start states (empty; seeded = contract with committed storage + funded account, built through the API); canonical key = all getter-observable state of the current revision and of every live snapshot + the account content as of the last finalisation + which accounts were addressed in the current transaction (pending in the journal) + whether the instance was finalised in place (IntermediateRoot) since it was opened + whether a live account was re-created in the current transaction + for which accounts a call was rolled back by RevertToSnapshot in the current transaction (so the state after a rollback is expanded on the instance that performed the rollback instead of being merged with the state the snapshot was taken in); the reference StateDB is driven through the same history on every execution. statedb_one_account_*: the same exploration with the per-address ops restricted to one address, one op deeper (covers modify A; Snapshot; modify A; RevertToSnapshot; IntermediateRoot/Commit — outcome classes IntermediateRoot|…/rollback-over-pending=true count those executions). " +
+		"distinct_nontrivial = number of distinct canonical states reached (an execution that ends in an already known canonical state is a merge and is not counted) plus one per value-size-sweep case (each is a distinct content; its two histories count as two transitions, one of them a merge); outcome_class_count = distinct (part, op, residency class or model effect) classes observed, outcome_classes = their histogram without the residency component."
+	rb := 0
+	for cl, n := range c.classes.Map() {
+		if strings.HasPrefix(cl, "statedb:") && strings.HasSuffix(cl, "rollback-over-pending=true") {
+			rb += n
+		}
+	}
+	cov["statedb_root_computations_after_rollback_over_pending_change"] = rb
+	if rb == 0 && sdb1Depth >= 5 {
+		core.Fatal("statedb: no root computation follows a rollback over an account with a surviving pending change (vacuous)")
+	}
 	cov["exhaustive"] = true
 	cov["bounds"] = bounds
 	cov["outcome_classes"] = c.coarse.Map()
@@ -482,6 +578,7 @@ func main() {
 		"a proof for a key in an EMPTY trie has no node; the only demand there is that verification yields no value",
 		"SecureTrie.Prove and VerifyProof are given the keccak image of the key (the calling convention of StateDB.GetProof in both implementations)",
 		"snapshots are live until the next IntermediateRoot/Commit (Finalise ends the transaction and clears journal and refund — reference semantics); RevertToSnapshot is only issued for live snapshots, SubBalance only when the balance covers it (a negative balance cannot be RLP-encoded by either implementation)",
+		"a copy of a trie and its original are used from one goroutine, one op at a time (no concurrent use); both share one node database",
 		"every execution runs on the real in-tree code (traces_validated_against_impl = all transitions); database = in-memory ethdb (MemDatabase), no LevelDB",
 	})
 }
